@@ -111,6 +111,8 @@ type exec struct {
 type Model struct {
 	Table   script.Table
 	NoParse bool
+	// HasTerm: a terminate hook is configured (its call is an expected event of Terminate)
+	HasTerm bool
 	// StmtCap / PortalCap: bounded user caches (script.Config); 0 = unbounded
 	StmtCap, PortalCap int
 	stmts              map[string]*mStmt
@@ -191,6 +193,14 @@ func (m *Model) Step(msg script.CMsg) (out []Exp, evs []ExpEv) {
 		// an oversized message is skipped and answered with one ErrorResponse (54000) in any
 		// state; whether its own ReadyForQuery follows is an open choice; the state is unchanged
 		return []Exp{{T: 'E', Why: "oversized message"}, {T: 'Z', OptZ: true}}, nil
+	}
+	if m.Discard && msg.K == "X" {
+		// Terminate is not skipped: it ends the session in every state
+		m.Closed = true
+		if !m.HasTerm {
+			return nil, nil
+		}
+		return nil, []ExpEv{{K: "terminate"}}
 	}
 	if m.Discard {
 		if msg.K == "S" {
@@ -297,6 +307,9 @@ func (m *Model) Step(msg script.CMsg) (out []Exp, evs []ExpEv) {
 		return []Exp{{T: 'Z'}}, nil
 	case "X":
 		m.Closed = true
+		if !m.HasTerm {
+			return nil, nil
+		}
 		return nil, []ExpEv{{K: "terminate"}}
 	case "d", "c", "f":
 		return nil, nil
